@@ -1628,6 +1628,92 @@ Qed.
 (* ------------------------------------------------------------------ all operations *)
 (* [contract] answers false when the number of inputs does not fit the operation (its last match
    arm), so the arity is a hypothesis; the harness always supplies the right number of meshes *)
+Lemma kept_okb_intro : forall m g, wf m ->
+  kept_okb m (concat (filter g (units (topology m) (indices m))))
+           (remove_unref (set_indices m (concat (filter g (units (topology m) (indices m)))))) = true.
+Proof.
+  intros m g W. unfold kept_okb.
+  destruct (keep_units_spec m g W) as [_ [C [_ [R [T [M K]]]]]].
+  rewrite same_shell_intro by assumption. rewrite all_referenced_intro by exact R. rewrite C, rows_eqb_refl.
+  cbn [andb]. destruct (concat (filter g (units (topology m) (indices m)))) eqn:EK; [reflexivity|].
+  rewrite K by discriminate. rewrite keys_eqb_refl. reflexivity.
+Qed.
+
+Lemma contract_slice : forall a clip m, wf m -> contract (OSlice a clip) [m] (step (OSlice a clip) [m]) = true.
+Proof.
+  intros a clip m W. cbn [contract step]. unfold slice, filter_idx.
+  destruct (topology m) eqn:T; try reflexivity; try (destruct (lookup (3%N, a) (attrs m)); reflexivity).
+  destruct (lookup (3%N, a) (attrs m)) as [d|] eqn:L; [|reflexivity].
+  pose proof (kept_okb_intro m (forallb (fun i => clip (nth i d []))) W) as H1.
+  pose proof (kept_okb_intro m (forallb (fun i => negb (clip (nth i d [])))) W) as H2.
+  rewrite T in H1, H2. cbn [units] in H1, H2 |- *. rewrite H1, H2. reflexivity.
+Qed.
+
+Lemma contract_scale_along_normal : forall a nrm amt m, wf m ->
+  contract (OScaleAlongNormal a nrm amt) [m] (step (OScaleAlongNormal a nrm amt) [m]) = true.
+Proof.
+  intros a nrm amt m W. cbn [contract step]. unfold scale_along_normal.
+  destruct (lookup (3%N, nrm) (attrs m)) as [dn|]; [|reflexivity].
+  apply only_attr_changesb_modify, W.
+Qed.
+
+(* SliceByPlaneWithAttribute, any side test: each half holds exactly the triangles wholly on its side, in
+   order, with unchanged corner content and no unreferenced vertex; a triangle is in at most one half, and
+   in neither iff the plane separates its corners *)
+Theorem slice_spec : forall a clip m d, wf m -> topology m = Triangle -> lookup (3%N, a) (attrs m) = Some d ->
+  let above := filter (forallb (fun i => clip (nth i d []))) (chunk3 (indices m)) in
+  let below := filter (forallb (fun i => negb (clip (nth i d [])))) (chunk3 (indices m)) in
+  exists ra rb, slice a clip m = Ok [ra; rb]
+    /\ prims ra = map (map (row m)) above /\ prims rb = map (map (row m)) below
+    /\ corners ra = map (row m) (concat above) /\ corners rb = map (row m) (concat below)
+    /\ (forall v, v < nverts ra -> In v (indices ra)) /\ (forall v, v < nverts rb -> In v (indices rb))
+    /\ topology ra = Triangle /\ topology rb = Triangle
+    /\ materials ra = materials m /\ materials rb = materials m
+    /\ (forall t, In t above -> In t below -> t = []).
+Proof.
+  intros a clip m d W T L above below. unfold slice, filter_idx. rewrite T, L.
+  pose proof (keep_units_spec m (forallb (fun i => clip (nth i d []))) W) as H1.
+  pose proof (keep_units_spec m (forallb (fun i => negb (clip (nth i d [])))) W) as H2.
+  rewrite T in H1, H2. cbn [units] in H1, H2 |- *. cbv zeta in H1, H2.
+  destruct H1 as [_ [C1 [P1 [R1 [T1 [M1 _]]]]]]. destruct H2 as [_ [C2 [P2 [R2 [T2 [M2 _]]]]]].
+  eexists. eexists. split; [reflexivity|].
+  repeat split; try assumption.
+  intros t Ha Hb. unfold above in Ha. unfold below in Hb.
+  apply filter_In in Ha. apply filter_In in Hb. destruct Ha as [_ Ha]. destruct Hb as [_ Hb].
+  destruct t as [|i t']; [reflexivity|]. cbn [forallb] in Ha, Hb.
+  apply andb_true_iff in Ha. apply andb_true_iff in Hb. destruct Ha as [Ha _]. destruct Hb as [Hb _].
+  rewrite Ha in Hb. discriminate.
+Qed.
+
+Theorem slice_declared : forall a clip m,
+  topology m <> Triangle \/ lookup (3%N, a) (attrs m) = None -> slice a clip m = Declared.
+Proof.
+  intros a clip m [H|H]; unfold slice.
+  - destruct (topology m); try reflexivity. exfalso. apply H. reflexivity.
+  - rewrite H. destruct (topology m); reflexivity.
+Qed.
+
+(* ScaleAttributeAlongNormal: exactly attribute a changes, value i becomes v_i + amount * n_i *)
+Theorem scale_along_normal_spec : forall a nrm amt m d dn, wf m ->
+  lookup (3%N, a) (attrs m) = Some d -> lookup (3%N, nrm) (attrs m) = Some dn -> d <> [] ->
+  exists r d', scale_along_normal a nrm amt m = Ok [r]
+    /\ topology r = topology m /\ indices r = indices m /\ materials r = materials m
+    /\ lookup (3%N, a) (attrs r) = Some d' /\ length d' = length d
+    /\ (forall i, i < length d -> nth i d' [] = vzip Z.add (nth i d []) (map (Z.mul amt) (nth i dn [])))
+    /\ (forall k', k' <> (3%N, a) -> lookup k' (attrs r) = lookup k' (attrs m))
+    /\ keys r = keys m.
+Proof.
+  intros a nrm amt m d dn W L Ln D. unfold scale_along_normal. rewrite Ln.
+  assert (LN : along_normal amt dn d <> []).
+  { intros E. apply D. apply length_zero_iff_nil. rewrite <- (along_normal_length amt dn d), E. reflexivity. }
+  destruct (modify_attr_frame (3%N, a) (along_normal amt dn) m d L LN) as [r [E [T [I [M [Lr [Fr Kr]]]]]]].
+  exists r, (along_normal amt dn d). split; [exact E|]. split; [exact T|]. split; [exact I|]. split; [exact M|].
+  split; [exact Lr|]. split; [apply along_normal_length|]. split; [|split; [exact Fr|apply Kr, W]].
+  intros i Hi. unfold along_normal.
+  rewrite (nth_map_lt _ _ _ _ _ _ (0%nat, @nil Z)) by (rewrite combine_length, seq_length, Nat.min_id; exact Hi).
+  rewrite combine_nth by apply seq_length. cbn [fst snd]. rewrite seq_nth by exact Hi. reflexivity.
+Qed.
+
 Definition op_arity (o : op) : nat := match o with OAppend => 2 | _ => 1 end.
 
 Theorem contract_sound : forall o ins, length ins = op_arity o ->
@@ -1658,6 +1744,8 @@ Proof.
     + cbn [contract step]. apply only_attr_changesb_modify, W.
     + cbn [contract step]. apply only_attr_changesb_modify, W.
     + cbn [contract step]. apply only_attr_changesb_modify, W.
+    + apply contract_slice, W.
+    + apply contract_scale_along_normal, W.
   - unfold inputs_ok in H. apply andb_true_iff in H. destruct H as [H _].
     cbn [forallb] in H. rewrite andb_true_r in H. apply andb_true_iff in H. destruct H as [H1 H2].
     apply wfb_wf in H1. apply wfb_wf in H2.
